@@ -27,6 +27,12 @@ var floatBits64 = []uint64{0, 0x8000000000000000, 0x3ff0000000000000, 0xbff00000
 	0x7ff8000000000000, 0x7ff4000000000000, 0xfff8000000000001, 0x7ff0000000000001, 1, 0x000fffffffffffff, 0x7fefffffffffffff}
 
 var strPool = []string{"", "a", "hi", "héllo", "日本語", "\x00", "emoji😀", "with space", "k", "key", "zz", "߿ࠀ￿", "a\x7fb"}
+
+// textPool: values that stress every text rendering of a message (String(), prototext, protojson): escapes at the
+// end of a literal, runs of blanks (which a whitespace-normalising post-processor would collapse), quotes, braces,
+// comment and separator characters, control characters
+var textPool = []string{"a\\", "C:\\dir\\", "two  blanks", "   ", "x   y  z", "\"quoted\"", "\\\"", "tab\there", "line\nbreak", "'", "\\", "  lead", "trail  ",
+	"{}", "<a: 1>", "[x]", "# c", "a;b,c", "\\  \\", "k: \"v\"  ", "\r\n", "end\\ ", "\\'"}
 var badStr = []string{"\xff", "a\xc0\xafb", "\xed\xa0\x80", "\xf4\x90\x80\x80", "\xe2\x82"}
 
 func (o *GenOpts) Scalar(r *vschema.Rand, k vschema.Kind) *Val {
@@ -49,8 +55,14 @@ func (o *GenOpts) Scalar(r *vschema.Rand, k vschema.Kind) *Val {
 			}
 			return VBlob(false, b)
 		}
+		if r.Chance(22) {
+			return VBlob(false, []byte(textPool[r.Intn(len(textPool))]))
+		}
 		return VBlob(false, []byte(strPool[r.Intn(len(strPool))]))
 	case vschema.Bytes:
+		if r.Chance(10) {
+			return VBlob(true, []byte(textPool[r.Intn(len(textPool))]))
+		}
 		switch r.Intn(8) {
 		case 0:
 			return VBlob(false, nil)
